@@ -63,6 +63,24 @@ Section Decision.
     - exact (path_valid_any_as_of sha256 load_pub ecdsa_verify t _ B).
   Qed.
 
+  (* The same function with the key selection of proposed_fixes/C11-ski-only-lookup.diff
+     ([validate_fixed] = [validate_gen true]) decides the full property. *)
+  Lemma decision_fixed d t :
+    wf_data d -> counts_ok d -> total_bytes d VALIDATION < 65536 -> n_len (b_nlri d) <= 128 ->
+    (Validate.validate_fixed sha256 load_pub ecdsa_verify d t = Some BGPSEC_VALID <->
+     preconds d /\ path_valid sha256 sig_ok t (to_update d)).
+  Proof.
+    intros Wf Hc Hs Hn.
+    assert (Hn0 : 0 <= n_len (b_nlri d)) by (destruct Wf as (_ & _ & _ & _ & _ & _ & ? & _); lia).
+    unfold Validate.validate_fixed.
+    rewrite (proj1 (validate_gen_decision sha256 load_pub ecdsa_verify true d t Wf Hc Hs)).
+    change (path_valid_gen sha256 sig_ok (as_ok true) t (to_update d))
+      with (path_valid sha256 sig_ok t (to_update d)).
+    split; [intros (A & B & _); auto|intros (A & B)].
+    split; [exact A|]. split; [exact B|].
+    apply (exit_condition d t Hn Hn0). exact (path_valid_any_as_of sha256 load_pub ecdsa_verify t _ B).
+  Qed.
+
   (* "only if" needs no side condition at all *)
   Lemma valid_only_if d t :
     wf_data d -> counts_ok d -> total_bytes d VALIDATION < 65536 ->
@@ -103,6 +121,11 @@ Qed.
 
 Lemma w_valid : validate toy_sha toy_load toy_verify w_data w_table = Some BGPSEC_VALID.
 Proof. vm_compute. reflexivity. Qed.
+
+(* the same witness under the fixed key selection: the key is reported missing *)
+Lemma w_fixed : validate_fixed toy_sha toy_load toy_verify w_data w_table = Some BGPSEC_ROUTER_KEY_NOT_FOUND /\
+                validate_fixed toy_sha toy_load toy_verify w_data w_table_ok = Some BGPSEC_VALID.
+Proof. split; vm_compute; reflexivity. Qed.
 
 Lemma w_not_registered : ~ path_valid toy_sha (sig_ok toy_load toy_verify) w_table (to_update w_data).
 Proof.
